@@ -371,11 +371,21 @@ def make_actor_class(spec):
     cache = SCENARIO.setdefault("_classes", {})
     if key in cache and cache[key][0] is parent:
         return cache[key][1]
-    cls = type(
-        "SimActor_" + spec["name"],
-        (parent,),
-        {"name": spec["name"], "function": spec.get("function"), "spec": spec},
-    )
+    body = {"name": spec["name"], "function": spec.get("function"), "spec": spec}
+    if spec.get("needs"):
+        # declared dependencies: helper interfaces (SCENARIO["helpers"]) or other actors, by name
+
+        def getDependencies(cls, cs, _needs=tuple(spec["needs"])):
+            out = []
+            for nm in _needs:
+                for other in list(SCENARIO.get("helpers", [])) + list(SCENARIO.get("actors", [])):
+                    if other["name"] == nm:
+                        out.append(make_actor_class(other))
+                        break
+            return out
+
+        body["getDependencies"] = classmethod(getDependencies)
+    cls = type("SimActor_" + spec["name"], (parent,), body)
     cache[key] = (parent, cls)
     return cls
 
